@@ -17,6 +17,7 @@ pub fn property() -> Property {
            Non-trivial = a reply carried at least one requested sequence number or fragment, or \
            acknowledged past a GAP. Distinct = distinct decoded histories.",
     assumptions: &[
+      "a HEARTBEAT whose count is not above the last one accepted from that writer is a duplicate and is ignored (RTPS 2.5, 8.3.8.6.5 / 8.4.15.7); the generator also sends such heartbeats with other contents than the original, which no conforming writer does",
       "count growth is checked per submessage kind (ACKNACK and NACKFRAG are numbered from one counter, but the NACKFRAGs of a reply are emitted before its ACKNACK)",
       "a HEARTBEAT whose count is not newer than the last processed one is legitimately ignored",
       "writers matched with >= 1 unicast locator (callers' precondition)",
